@@ -20,6 +20,26 @@ CHECKS = {
          "they remove and are never stored; no duplicates and no TTL-0 record in any reachable cache (arbitrary, even late, firings). "
          "Tie and monitor as for C05.",
          "DESIGN.md section 4 (C05/C06/C18)", "Rocq proof of addRecord's shape and reachable-state invariants + SrcFacts decision-expression regeneration + differential correspondence + monitor"),
+ "C02": ("Theorem (Properties_C02.v, partial): for every placement of compression pointers that RFC 1035 allows (relation NameAt: pointer to "
+         "any earlier offset where the remaining labels are encoded, chains of any length, any label bytes) parseName returns exactly the "
+         "name and the in-place end offset. The record and message layers are tied, not yet proved: an independent reference encoder "
+         "(random legal compression choices, unsupported types with opaque rdata, multi-string TXT with empty strings, counts split over "
+         "sections) feeds fromPacket and the model; both must return the source message exactly.",
+         "DESIGN.md section 4 (C02)", "Rocq proof of name-decoder completeness w.r.t. a relational wire spec + reference-encoder differential correspondence"),
+ "C03": ("Theorems (Properties_C03.v): for every buffer content, length <= 65535 and start offset, fromPacket / parseRecord / parseName of "
+         "the faithful model never perform a raw read at index >= length (every read the C++ does through constData() is modelled as "
+         "Fault when out of bounds) and never exhaust fuel length+1 (termination bound); results depend only on the bytes inside the "
+         "buffer; pointers are followed strictly backwards; forward/self pointers and reserved label types are rejected. Tie: model vs "
+         "real decoder (ASan+UBSan, exact-size heap buffers, watchdog) on exhaustive short strings, mutants and random buffers up to 65535 "
+         "bytes; every returned message is re-encoded under ASan. Partial in the sense that the C++ object code itself is not verified.",
+         "DESIGN.md section 4 (C03)", "Rocq proof of decoder memory safety/termination/extensionality on an instrumented model + sanitizer-checked differential correspondence"),
+ "C07": ("Theorem C07_prober (Properties_C07.v): for every probed record and every schedule of deliveries and clock advances (exact, "
+         "message-before-timer at equal instants, late firings) the prober model's outputs are accepted by the C07 acceptor - a complete "
+         "reference for what a prober may send: confirmation only >= 2000 ms after the latest probe for exactly that name with no "
+         "conflicting response since, candidates base, base-2, ... advancing once per conflicting record, one confirmation, silence "
+         "afterwards. Conflict condition and probe wait come from prober.cpp. Tie: model vs real Prober under virtual time on all "
+         "schedules of <= 3 (thorough 4) events on the deadline grid plus random ones; the extracted acceptor judges the implementation.",
+         "DESIGN.md section 4 (C07)", "Rocq coupling proof (model run accepted by executable acceptor) + SrcFacts regeneration + differential correspondence under virtual time"),
  "C18": ("Theorems (Properties_C18.v): the schedule written by addRecord is 50/85/90/95 % + jitter then expiry, strictly increasing "
          "(multipliers, jitter bound and 32-bit arithmetic taken from cache.cpp); under exact scheduling the warnings concerning a "
          "record are exactly the pending warning instants <= t of its current schedule, none for a record that is not stored; "
